@@ -10,6 +10,7 @@ import Emg3dVerif.Drv.C11
 import Emg3dVerif.Drv.C15
 import Emg3dVerif.Drv.C10
 import Emg3dVerif.Drv.C09
+import Emg3dVerif.Drv.C14
 open Emg
 
 def handle (ws : List String) : String :=
@@ -29,6 +30,7 @@ def handle (ws : List String) : String :=
       else if w == "volavg" || w == "vaw" then Drv15.handle ws
       else if w == "pvec" || w == "recv" || w == "dvec" then Drv10.handle ws
       else if w == "ecf" then Drv09.handle ws
+      else if w == "validate" || w == "map" then Drv14.handle ws
       else none
     r.getD "bad-op"
 
